@@ -594,7 +594,7 @@ def run_case(case):
                 shape = case["scenario"]
             else:
                 spec = gen.gen_project(rng)
-                phases = gen.gen_history(rng, spec)
+                phases = gen.gen_history(rng, spec, breaks=0.25)
                 shape = json.dumps([len(spec["steps"]), sorted(spec["plans"]),
                                     sorted({st.get("need") for st in spec["steps"].values()})])
             witness = {"spec": spec, "phases": [p["edits"] for p in phases], "case": case["id"],
